@@ -18,6 +18,7 @@ import IgVerif.Model.Macro
 import IgVerif.Model.Export
 import IgVerif.Model.Comments
 import IgVerif.Model.Wrap
+import IgVerif.Model.Dispatch
 /-! `igdriver <model>`: reads one op per line on stdin, prints one answer per line.
 Byte strings are hex ("-" = empty). -/
 open IgVerif
@@ -709,6 +710,50 @@ def wrapStep (_ : Unit) (toks : List String) : IO (Unit × String) := do
   | ["arities", n, d] => return ((), " ".intercalate ((Wr.wrapperArities (n.toNat?.getD 0) (d.toNat?.getD 0)).map toString))
   | _ => return ((), "bad-op")
 
+/-! ### dispatch -/
+def parsePCat (s : String) : Dp.PCat :=
+  match s.splitOn ":" with
+  | ["int"] => .int | ["float"] => .float | ["str"] => .str
+  | ["obj", c, k] => .obj (c.toNat?.getD 0) (k == "1")
+  | _ => .str
+
+def parsePyV (s : String) : Dp.PyV :=
+  match s.splitOn ":" with
+  | ["int"] => .int | ["float"] => .float | ["str"] => .str | ["none"] => .none
+  | ["inst", c, k] => .inst (c.toNat?.getD 0) (k == "1")
+  | _ => .none
+
+/-- `dispatch <nclasses> <parent of class i | ->... <nremaps> (tag minArgs ncats cats...)... <nargs> args...` -/
+def dispatchStep (_ : Unit) (toks : List String) : IO (Unit × String) := do
+  match toks with
+  | "dispatch" :: nc :: rest =>
+    let k := nc.toNat?.getD 0
+    let parents : List (Option Nat) := (rest.take k).map fun t => t.toNat?
+    let rec anc (fuel : Nat) (d b : Nat) : Bool :=
+      match fuel with
+      | 0 => false
+      | f + 1 => d == b || (match (parents.getD d none) with | some p => anc f p b | none => false)
+    let sub := anc (k + 1)
+    let rec remaps (n : Nat) (ts : List String) (fuel : Nat) : List Dp.Remap × List String :=
+      match fuel, n, ts with
+      | 0, _, _ => ([], ts)
+      | _, 0, _ => ([], ts)
+      | f + 1, n + 1, tag :: mn :: ncat :: more =>
+        let c := ncat.toNat?.getD 0
+        let r : Dp.Remap := ⟨(more.take c).map parsePCat, mn.toNat?.getD 0, tag.toNat?.getD 0⟩
+        let (rs, left) := remaps n (more.drop c) f
+        (r :: rs, left)
+      | _, _, _ => ([], ts)
+    match rest.drop k with
+    | nr :: more =>
+      let (rs, left) := remaps (nr.toNat?.getD 0) more (more.length + 1)
+      match left with
+      | _na :: args =>
+        return ((), match Dp.dispatch sub rs (args.map parsePyV) with | some r => toString r.tag | none => "TypeError")
+      | [] => return ((), match Dp.dispatch sub rs [] with | some r => toString r.tag | none => "TypeError")
+    | [] => return ((), "bad-op")
+  | _ => return ((), "bad-op")
+
 def main (args : List String) : IO UInt32 := do
   let stdin ← IO.getStdin
   match args with
@@ -729,4 +774,5 @@ def main (args : List String) : IO UInt32 := do
   | ["export"] => loop stdin exportStep (); return 0
   | ["comments"] => loop stdin commentsStep (); return 0
   | ["wrap"] => loop stdin wrapStep (); return 0
+  | ["dispatch"] => loop stdin dispatchStep (); return 0
   | _ => IO.eprintln "usage: igdriver <model>"; return 2
